@@ -10,6 +10,7 @@ Extracted (and tied by `reflexivity` to the configurations the theorems of Props
                                       cache_scope overrides for cache=False / prov=False
   gen_handback    : handback_cfg   -- endings of Scheduler.run / extend_run, the dict of _subrun_root_task, `then`
   gen_wiring      : wiring         -- where execution id / parent job of the sub-scheduler's jobs come from
+  gen_config_args : list rtarg     -- @task(config_args=[...]) of _subrun_root_task: what is left out of its cache identity
   gen_ctx_order   : ctx_order      -- Scheduler.run: merge_dicts([config-level context, context given to run()])
 Pinned by shape (translate/pins_C38.json): small helpers the model takes as given (Job.get_raw_options /
 get_options / get_option / recording_provenance / get_context, Execution.__init__, JobInfo.from_job, RedunBackendDb.get_job).
@@ -584,6 +585,21 @@ def extract_root_task(mod):
     params = {a.arg: d for a, d in zip(fn.args.args[-len(fn.args.defaults):], fn.args.defaults)}
     if "job_info" not in params or src(params["job_info"]) != "JobInfo()":
         fail("_subrun_root_task: job_info no longer defaults to the JobInfo() placeholder", fn)
+    # which arguments are left out of the call's cache identity, and the task's own cache defaults
+    deco = decorator_kwargs(fn, "task")
+    ca = deco.get("config_args")
+    if not (isinstance(ca, ast.List) and all(isinstance(e, ast.Constant) and isinstance(e.value, str) for e in ca.elts)):
+        fail("_subrun_root_task: config_args is not a literal list of names", fn)
+    names = {"expr": "AExpr", "config": "AConfig", "config_dir": "AConfigDir", "load_modules": "ALoadModules",
+             "run_config": "ARunConfig", "new_execution": "ANewExecution", "job_info": "AJobInfo", "export_options": "AExportOptions"}
+    if [a.arg for a in fn.args.args] != list(names) or fn.args.vararg or fn.args.kwarg or fn.args.kwonlyargs:
+        fail(f"_subrun_root_task: parameters changed: {[a.arg for a in fn.args.args]}", fn)
+    for e in ca.elts:
+        if e.value not in names:
+            fail(f"_subrun_root_task: config_args names an unknown parameter {e.value!r}", fn)
+    out["config_args"] = [names[e.value] for e in ca.elts]
+    if src(deco.get("cache_scope")) != "CacheScope.CSE" or src(deco.get("check_valid")) != "CacheCheckValid.SHALLOW":
+        fail("_subrun_root_task: the task's own cache_scope / check_valid defaults changed", fn)
     body = body_nodoc(fn)
     seq = []
     for s in body:
@@ -711,8 +727,11 @@ def translate(pins: dict | None = None, sched_source=None, db_source=None):
          "",
          "Definition gen_ctx_order : ctx_order := %s." % ctx_order,
          "",
+         "Definition gen_config_args : list rtarg := %s." % coq_list(rt["config_args"]),
+         "",
          "(* the theorems of Props/C38.v are about the shipped_* configurations: they must be what the source says now *)",
          "Lemma C38_tie_ctx_order : gen_ctx_order = shipped_ctx_order.\nProof. reflexivity. Qed.",
+         "Lemma C38_tie_config_args : gen_config_args = shipped_config_args.\nProof. reflexivity. Qed.",
          "Lemma C38_tie_check_cache : gen_check_cache = shipped_check_cache.\nProof. reflexivity. Qed.",
          "Lemma C38_tie_getcache : gen_getcache = shipped_getcache.\nProof. reflexivity. Qed.",
          "Lemma C38_tie_subrun_opts : gen_subrun_opts = shipped_subrun_opts.\nProof. reflexivity. Qed.",
